@@ -483,6 +483,7 @@ func c13MakeRef() {
 		src := src
 		entry := map[string]string{}
 		protect(func() {
+			simrt.Load((&Tape{}).config())
 			simCall(func() {
 				m, err := src.Build()
 				if err != nil {
@@ -642,6 +643,7 @@ func c13Count(sum *Summary, sc *C13Scenario, o *c13Outcome) {
 	sum.Counters["simulated Lock calls"] += s.Locks
 	sum.Counters["blocked-on-mutex events"] += s.Blocked
 	sum.Counters["scheduler decisions"] += s.Decisions
+	countChans(sum, s)
 	if s.PoolGets > 0 {
 		sum.Counters["sync.Pool gets under simulator control"] += s.PoolGets
 		sum.Counters["sync.Pool gets that reused an object put back earlier"] += s.PoolReuses
@@ -697,7 +699,7 @@ func siteName(id int32) string {
 	return fmt.Sprintf("site %d", id)
 }
 
-var whyNames = []string{"budget", "lock edge", "unlock edge", "blocked on mutex", "task end", "start"}
+var whyNames = []string{"budget", "lock edge", "unlock edge", "blocked", "task end", "start", "rendezvous on an unbuffered channel"}
 
 func traceStrings(tr []simrt.Switch, max int) []string {
 	var out []string
@@ -706,7 +708,7 @@ func traceStrings(tr []simrt.Switch, max int) []string {
 			out = append(out, fmt.Sprintf("… %d more", len(tr)-max))
 			break
 		}
-		out = append(out, fmt.Sprintf("step %d: task %d -> task %d (%s) after %s", s.Step, s.From, s.To, whyNames[s.Why], siteName(s.Site)))
+		out = append(out, fmt.Sprintf("step %d: task %d -> task %d (%s) after %s", s.Step, s.From, s.To, whyNames[int(s.Why)%len(whyNames)], siteName(s.Site)))
 	}
 	return out
 }
